@@ -200,7 +200,9 @@ fn wire_bytes(e: &Exec) -> [Vec<Vec<u8>>; 2] {
 fn judge_against_clean(e: &Exec, clean: &[Vec<Vec<u8>>; 2], fault_steps: &[usize], kinds: &[&'static str]) -> (Vec<(String, String)>, bool) {
     let mut v = vec![];
     let kind = kinds.join(" + ");
-    let failed: Vec<bool> = fault_steps.iter().map(|k| matches!(e.steps.get(*k).map(|s| &s.real), Some(Real::Err(_)) | Some(Real::Panic(_)))).collect();
+    // (a call that panics did not "return an error": that is C10's clause, and nothing is said here about the state
+    // it leaves behind)
+    let failed: Vec<bool> = fault_steps.iter().map(|k| matches!(e.steps.get(*k).map(|s| &s.real), Some(Real::Err(_)))).collect();
     // a "fault" that did not fail (e.g. a flip in a clear field that is accepted, a SetPsk) is not a failed call:
     // C07 says nothing about it
     let set_psk_step = |k: &usize| matches!(e.steps.get(*k).map(|s| &s.op), Some(Op::SetPsk { .. }));
